@@ -29,12 +29,12 @@ type Simple struct {
 }
 
 type Tagged struct {
-	Name string      `struct:"name"`
-	Skip int         `struct:"-"`
-	Opt  string      `struct:"opt,omitempty"`
-	Num  *int        `struct:"num,omitempty"`
-	In   Inner       `struct:",inline"`
-	Ifc  interface{} `struct:"ifc"`
+	Name   string      `struct:"name"`
+	Skip   int         `struct:"-"`
+	Opt    string      `struct:"opt,omitempty"`
+	Num    *int        `struct:"num,omitempty"`
+	In     Inner       `struct:",inline"`
+	Ifc    interface{} `struct:"ifc"`
 	hidden int
 }
 
@@ -139,7 +139,6 @@ type Ptrs struct {
 	PM *map[string]int
 	PN *Inner
 }
-
 
 // Celsius implements gotype.Folder (custom folding through the interface).
 type Celsius float64
@@ -247,8 +246,8 @@ func genU64(c *simkit.Choices) uint64 {
 	}
 	return uint64(genI(c)) >> 1
 }
-func genI(c *simkit.Choices) int64    { return GenInt(c).Int64() }
-func genF(c *simkit.Choices) float64  { return math.Float64frombits(GenF64(c, false).F) }
+func genI(c *simkit.Choices) int64   { return GenInt(c).Int64() }
+func genF(c *simkit.Choices) float64 { return math.Float64frombits(GenF64(c, false).F) }
 
 func genSlice[T any](c *simkit.Choices, el func(*simkit.Choices) T) []T {
 	if c.N(8) == 0 {
@@ -360,10 +359,16 @@ var Catalogue = []TypeEntry{
 	mk("[]bool", false, func(c *simkit.Choices) []bool { return genSlice(c, func(c *simkit.Choices) bool { return c.Bool() }) }),
 	mk("[]string", true, func(c *simkit.Choices) []string { return genSlice(c, genStr) }),
 	mk("[]int", false, func(c *simkit.Choices) []int { return genSlice(c, func(c *simkit.Choices) int { return int(genI(c)) }) }),
-	mk("[]int8", false, func(c *simkit.Choices) []int8 { return genSlice(c, func(c *simkit.Choices) int8 { return int8(c.N(256)) }) }),
+	mk("[]int8", false, func(c *simkit.Choices) []int8 {
+		return genSlice(c, func(c *simkit.Choices) int8 { return int8(c.N(256)) })
+	}),
 	mk("[]int64", false, func(c *simkit.Choices) []int64 { return genSlice(c, genI) }),
-	mk("[]uint8", false, func(c *simkit.Choices) []uint8 { return genSlice(c, func(c *simkit.Choices) uint8 { return uint8(c.N(256)) }) }),
-	mk("[]uint16", false, func(c *simkit.Choices) []uint16 { return genSlice(c, func(c *simkit.Choices) uint16 { return uint16(c.N(65536)) }) }),
+	mk("[]uint8", false, func(c *simkit.Choices) []uint8 {
+		return genSlice(c, func(c *simkit.Choices) uint8 { return uint8(c.N(256)) })
+	}),
+	mk("[]uint16", false, func(c *simkit.Choices) []uint16 {
+		return genSlice(c, func(c *simkit.Choices) uint16 { return uint16(c.N(65536)) })
+	}),
 	mk("[]uint64", false, func(c *simkit.Choices) []uint64 { return genSlice(c, genU64) }),
 	mk("[]float32", false, func(c *simkit.Choices) []float32 {
 		return genSlice(c, func(c *simkit.Choices) float32 { return math.Float32frombits(uint32(GenF32(c, false).F)) })
@@ -373,8 +378,12 @@ var Catalogue = []TypeEntry{
 		return genSlice(c, func(c *simkit.Choices) interface{} { return genIfc(c, 1) })
 	}),
 	mk("map[string]string", true, func(c *simkit.Choices) map[string]string { return genMap(c, genStr) }),
-	mk("map[string]int", true, func(c *simkit.Choices) map[string]int { return genMap(c, func(c *simkit.Choices) int { return int(genI(c)) }) }),
-	mk("map[string]bool", true, func(c *simkit.Choices) map[string]bool { return genMap(c, func(c *simkit.Choices) bool { return c.Bool() }) }),
+	mk("map[string]int", true, func(c *simkit.Choices) map[string]int {
+		return genMap(c, func(c *simkit.Choices) int { return int(genI(c)) })
+	}),
+	mk("map[string]bool", true, func(c *simkit.Choices) map[string]bool {
+		return genMap(c, func(c *simkit.Choices) bool { return c.Bool() })
+	}),
 	mk("map[string]uint8", true, func(c *simkit.Choices) map[string]uint8 {
 		return genMap(c, func(c *simkit.Choices) uint8 { return uint8(c.N(256)) })
 	}),
@@ -513,9 +522,38 @@ var Catalogue = []TypeEntry{
 	unsupported(mk("map[int]string", true, func(c *simkit.Choices) map[int]string { return nil })),
 }
 
+// localRecordA and localRecordB declare two DISTINCT struct types that share
+// package path and name ("record") but differ in fields and tags: anything in
+// the library keyed by type name instead of reflect.Type confuses them.
+func localRecordA() TypeEntry {
+	type record struct {
+		Host string `struct:"hostname"`
+		Port int    `struct:"port,omitempty"`
+		Note string `struct:"-"`
+	}
+	return mk("local-A.record", true, func(c *simkit.Choices) record {
+		return record{Host: genStr(c), Port: c.N(3), Note: "n"}
+	})
+}
+
+func localRecordB() TypeEntry {
+	type record struct {
+		Host  string   `struct:"h"`
+		Port  int      `struct:"p"`
+		Note  string   `struct:"note,omitempty"`
+		Extra []string `struct:"extra"`
+	}
+	return mk("local-B.record", true, func(c *simkit.Choices) record {
+		return record{Host: genStr(c), Port: c.N(3), Note: genStr(c), Extra: genSlice(c, genStr)}
+	})
+}
+
+func init() {
+	Catalogue = append(Catalogue, localRecordA(), localRecordB())
+}
+
 func unsupported(t TypeEntry) TypeEntry { t.Supported = false; return t }
 func foldOnly(t TypeEntry) TypeEntry    { t.FoldOnly = true; return t }
-
 
 // TypeByName finds a catalogue entry.
 func TypeByName(name string) *TypeEntry {
